@@ -9,7 +9,7 @@ PROP = {
              {"tag": "c13call", "bin": "gcall", "no_default_features": True, "args": ["--prop", "C13"], "model": False},
              {"tag": "c13-release", "bin": "c13", "profile": "release", "tiers": ["thorough"]}],
     "mismatch_is_failing": True,
-    "rule": "pair cases (==, !=, partial_cmp, <, <=, >, >=, cmp, HashMap/BTreeMap lookups through &[T]): ALL ordered pairs of arrays of equal length N in 0..=4 over a 3-letter alphabet per element type (f64: 4 letters NaN/0.0/1.5/-0.0 for N<=3; thorough: 4 letters for N<=4 and 3 letters for N=5), element types u8, i32, f64, String, GenericArray<u8,U2>, Kv (== on both fields, ordered by the key), i8 (one byte, signed order), Wb (one byte with a hand-written two-call Hash); plus seeded pairs (equal / differing at one or two positions / independent) for N in {5,8,15,16,17,31,32,33,64,65} (one class differs exactly at the last or first position). single cases (Borrow/AsRef/BorrowMut/AsMut views, exact call stream received by a recording Hasher, Debug under {:?} {:#?} {:5?} {:.2?} {:08.3?} {:#7.1?}): ALL arrays for N<=3 over 5 letters and N=4 over 4 letters, plus seeded arrays for the same N (integers: arbitrary values). one array of 1025 elements per u8 / String / Wb (single case, equal pair, pair differing at the last element); caller programs compiled separately (c13call). thorough repeats everything with the harness built in release mode (opt-level 2). distinct = distinct CASE lines; non-trivial = the arrays are non-empty (third integer > 0); element type Kv {k, v} whose == looks at both fields and whose ordering looks at the key only",
+    "rule": "pair cases (==, !=, partial_cmp, <, <=, >, >=, cmp, HashMap/BTreeMap lookups through &[T]): ALL ordered pairs of arrays of equal length N in 0..=4 over a 3-letter alphabet per element type (f64: 4 letters NaN/0.0/1.5/-0.0 for N<=3; thorough: 4 letters for N<=4 and 3 letters for N=5), element types u8, i32, f64, String, GenericArray<u8,U2>, Kv (== on both fields, ordered by the key), i8 (one byte, signed order), Wb (one byte with a hand-written two-call Hash), To (total Ord, partial PartialOrd); plus seeded pairs (equal / differing at one or two positions / independent) for N in {5,8,15,16,17,31,32,33,64,65} (one class differs exactly at the last or first position). single cases (Borrow/AsRef/BorrowMut/AsMut views, exact call stream received by a recording Hasher, Debug under {:?} {:#?} {:5?} {:.2?} {:08.3?} {:#7.1?}): ALL arrays for N<=3 over 5 letters and N=4 over 4 letters, plus seeded arrays for the same N (integers: arbitrary values). one array of 1025 elements per u8 / String / Wb (single case, equal pair, pair differing at the last element); caller programs compiled separately (c13call). thorough repeats everything with the harness built in release mode (opt-level 2). distinct = distinct CASE lines; non-trivial = the arrays are non-empty (third integer > 0); element type Kv {k, v} whose == looks at both fields and whose ordering looks at the key only",
     "nontrivial": lambda case, obs: case.split()[2] != "0",
     "manifest": {
         "design_ref": "DESIGN.md section 7, C13",
